@@ -5,6 +5,7 @@ import (
 	"flag"
 	"fmt"
 	"os"
+	"os/exec"
 	"runtime"
 	"sort"
 	"strings"
@@ -177,30 +178,33 @@ func hasSig(res *Result, sig string) bool {
 }
 
 type WorkerOut struct {
-	Property    string            `json:"property"`
-	Worker      int               `json:"worker"`
-	Seed        uint64            `json:"seed"`
-	Runs        int               `json:"runs"`
-	ShrinkRuns  int               `json:"shrink_runs"`
-	Nontrivial  int               `json:"nontrivial"`
-	Steps       int64             `json:"steps"`
-	Preempts    int64             `json:"preempts"`
-	SimTimeUs   int64             `json:"sim_time_us"`
-	WallS       float64           `json:"wall_s"`
-	Counters    map[string]int    `json:"counters"`
-	PerProfile  map[string]int    `json:"runs_per_profile"`
-	Samples     []any             `json:"samples"`
-	Violation   *Violation        `json:"violation,omitempty"`
-	Replay      string            `json:"replay,omitempty"`
-	Known       map[string]int    `json:"known_hits,omitempty"`
-	KnownReplay map[string]string `json:"known_replays,omitempty"`
-	HarnessErr  string            `json:"harness_error,omitempty"`
-	DetChecks   int               `json:"determinism_rechecks"`
-	DetMismatch int               `json:"determinism_mismatches"`
-	Goroutines  int               `json:"goroutines_left_at_end"`
-	NextBatch   int               `json:"next_batch"`
-	Hashes      []string          `json:"-"`
-	StateHashes int               `json:"distinct_final_states"`
+	Property   string `json:"property"`
+	Worker     int    `json:"worker"`
+	Seed       uint64 `json:"seed"`
+	Runs       int    `json:"runs"`
+	ShrinkRuns int    `json:"shrink_runs"`
+	Nontrivial int    `json:"nontrivial"`
+	Steps      int64  `json:"steps"`
+	Preempts   int64  `json:"preempts"`
+	SimTimeUs  int64  `json:"sim_time_us"`
+	// Unreproducible: first violation this worker found and dropped because a fresh process did
+	// not reproduce it from its replay file
+	Unreproducible string            `json:"unreproducible,omitempty"`
+	WallS          float64           `json:"wall_s"`
+	Counters       map[string]int    `json:"counters"`
+	PerProfile     map[string]int    `json:"runs_per_profile"`
+	Samples        []any             `json:"samples"`
+	Violation      *Violation        `json:"violation,omitempty"`
+	Replay         string            `json:"replay,omitempty"`
+	Known          map[string]int    `json:"known_hits,omitempty"`
+	KnownReplay    map[string]string `json:"known_replays,omitempty"`
+	HarnessErr     string            `json:"harness_error,omitempty"`
+	DetChecks      int               `json:"determinism_rechecks"`
+	DetMismatch    int               `json:"determinism_mismatches"`
+	Goroutines     int               `json:"goroutines_left_at_end"`
+	NextBatch      int               `json:"next_batch"`
+	Hashes         []string          `json:"-"`
+	StateHashes    int               `json:"distinct_final_states"`
 }
 
 func splitmix(x uint64) uint64 {
@@ -564,6 +568,7 @@ func runEngine(t *testing.T, eng *engine) {
 			}
 		}()
 	}
+search:
 	for time.Now().Before(deadline) && out.Runs < *fMaxRuns && fail.in == nil {
 		// Goroutines left behind by simulated process deaths (DESIGN 2.2) pin the memory of their
 		// run: the worker ends when its heap has grown and the driver starts a fresh one.
@@ -658,20 +663,49 @@ func runEngine(t *testing.T, eng *engine) {
 		}
 		batch++
 	}
-	out.NextBatch = batch
-	out.WallS = time.Since(start).Seconds()
-	out.StateHashes = len(states)
-	out.Goroutines = runtime.NumGoroutine()
 	if fail.in != nil {
+		// A violation counts only if a fresh process reproduces it from the replay file alone:
+		// code under test that keeps state in package-level variables (a recycled buffer, a shared
+		// decoding target) makes a run depend on the runs this process made before it. The
+		// minimised input is tried first, then the input as found; if neither reproduces, the
+		// failure is dropped (counted) and the search goes on.
+		orig := fail.in
 		if eng.shrink != nil {
 			small, n := eng.shrink(t, fail.in, fail.v.Sig())
 			out.ShrinkRuns += n
 			fail.in = small
 		}
-		v := fail.v
-		out.Violation = &v
-		out.Replay = writeReplay(t, eng, fail.in, fail.v, fail.seed, false)
+		confirmed := false
+		for _, cand := range []any{fail.in, orig} {
+			path := writeReplay(t, eng, cand, fail.v, fail.seed, false)
+			if freshProcessReproduces(path) {
+				v := fail.v
+				out.Violation = &v
+				out.Replay = path
+				confirmed = true
+				break
+			}
+			_ = os.Remove(path)
+			if eng.shrink == nil {
+				break
+			}
+		}
+		if !confirmed {
+			out.Counters["violation.dropped-not-reproducible-in-a-fresh-process"]++
+			if out.Unreproducible == "" {
+				out.Unreproducible = fail.v.Prop + "/" + fail.v.Class + ": " + fail.v.Detail
+			}
+			fail.in = nil
+			batch++
+			if time.Now().Before(deadline) && out.Runs < *fMaxRuns {
+				goto search
+			}
+		}
 	}
+	out.NextBatch = batch
+	out.WallS = time.Since(start).Seconds()
+	out.StateHashes = len(states)
+	out.Goroutines = runtime.NumGoroutine()
 	if *fOut != "" {
 		writeJSON(*fOut, out)
 		hs := make([]string, 0, len(hashes))
@@ -689,6 +723,37 @@ func runEngine(t *testing.T, eng *engine) {
 	}
 	if fail.in != nil {
 		fmt.Printf("FOUND property=%s class=%s replay=%s\n", fail.v.Prop, fail.v.Class, out.Replay)
+	}
+}
+
+// freshProcessReproduces replays a file in a new OS process of this very binary (exit status 1
+// of the replay mode = same violation class, same event-log digest).
+func freshProcessReproduces(path string) bool {
+	args := []string{"-test.run", "TestSim", "-sim.mode=replay", "-sim.file=" + path}
+	if *fFine != "" {
+		args = append(args, "-sim.finesites="+*fFine)
+	}
+	cmd := exec.Command(os.Args[0], args...)
+	cmd.Env = append(os.Environ(), "GOMAXPROCS=1")
+	done := make(chan error, 1)
+	if err := cmd.Start(); err != nil {
+		return false
+	}
+	go func() { done <- cmd.Wait() }()
+	limit := time.After(120 * time.Second)
+	for {
+		select {
+		case err := <-done:
+			if ee, ok := err.(*exec.ExitError); ok {
+				return ee.ExitCode() == 1
+			}
+			return false
+		case <-time.After(5 * time.Second):
+			runProgress.Add(1) // the progress watch must not take this wait for a hung run
+		case <-limit:
+			_ = cmd.Process.Kill()
+			return false
+		}
 	}
 }
 
